@@ -105,6 +105,8 @@ def check_item(it, obj, mv=None):
 
 
 def chunks_of(buf):
+    if not hasattr(buf, "chunks"):
+        return None
     return [(int(c.start), int(c.end)) for c in buf.chunks if c.end > c.start]
 
 
@@ -139,7 +141,7 @@ def run_case(w, rng):
         info["items"] = [dict(it.info, buffer=envs.index(it.env)) for it in items]
         for e in envs:
             e.repoison()
-            if len(chunks_of(e.buf)) > 1:
+            if len(chunks_of(e.buf) or []) > 1:
                 w.count("buffers_with_holes")
             w.count("kindbuf:" + e.kind)
         for it in items:
@@ -200,8 +202,15 @@ def run_case(w, rng):
         for nbuf, env in nbufs.values():
             if nbuf.capacity != env.buf.capacity:
                 viol("unpickled-buffer-capacity-differs", f"{nbuf.capacity} vs {env.buf.capacity}")
-            elif bufmon.raw_bytes(nbuf) != bufmon.raw_bytes(env.buf):
-                viol("unpickled-buffer-bytes-differ", "")
+            else:
+                # free space need not be preserved byte for byte; every live region must be
+                ra, rb = bufmon.raw_bytes(nbuf), bufmon.raw_bytes(env.buf)
+                for lo, hi in env.fol.sh.live_intervals():
+                    if ra[lo:hi] != rb[lo:hi]:
+                        viol("unpickled-buffer-live-bytes-differ", f"live region [{lo},{hi})")
+                        break
+            if nbuf.get_free() != env.buf.get_free():
+                viol("unpickled-buffer-free-total-differs", f"{nbuf.get_free()} vs {env.buf.get_free()}")
             if chunks_of(nbuf) != chunks_of(env.buf):
                 viol("unpickled-buffer-free-list-differs", f"{chunks_of(nbuf)} vs {chunks_of(env.buf)}")
             if type(nbuf) is not type(env.buf):
